@@ -1001,8 +1001,14 @@ func (tc *typechecker) checkImport(impor *ast.Import) error {
 
 		// 'import . "pkg"': add every declaration to the file package block.
 		if isPeriodImport(impor) {
+			dup := ""
 			for ident, ti := range imported.Declarations {
-				tc.scopes.Declare(ident, ti, nil, impor)
+				if !tc.scopes.Declare(ident, ti, nil, impor) && (dup == "" || ident < dup) {
+					dup = ident
+				}
+			}
+			if dup != "" {
+				return tc.errorf(impor, "%s redeclared in this block", dup)
 			}
 			return nil
 		}
